@@ -116,6 +116,15 @@ func init() {
 			w.monitorEnd(fr)
 			return nil, true
 		},
+		"LiveGoroutines": func(w *Worker, fr *frame, a []Value) (Value, bool) {
+			n := 0
+			for i, g := range w.gs {
+				if i > 0 && !g.done && g != w.curG {
+					n++
+				}
+			}
+			return vI(n), true
+		},
 		"Native": func(w *Worker, fr *frame, a []Value) (Value, bool) {
 			return mkBool(false), true
 		},
